@@ -40,6 +40,7 @@ class Hub(object):
         self._subscriptions = WeakKeyDictionary()
 
         self._paused = False
+        self._delay_depth = 0
         self._queue = []
 
         self._ignore = Counter()
@@ -199,15 +200,21 @@ class Hub(object):
 
     @contextmanager
     def delay_callbacks(self):
+        # Delay blocks can be nested: only the outermost one flushes the queue
+        self._delay_depth = getattr(self, '_delay_depth', 0) + 1
         self._paused = True
         try:
             yield
         finally:
-            self._paused = False
-            # TODO: could de-duplicate messages here
-            for message in self._queue:
-                self.broadcast(message)
-            self._queue = []
+            self._delay_depth -= 1
+            if self._delay_depth == 0:
+                self._paused = False
+                # Take the queue before delivering, so that handlers which
+                # themselves open a delay block do not re-deliver it.
+                # TODO: could de-duplicate messages here
+                queue, self._queue = self._queue, []
+                for message in queue:
+                    self.broadcast(message)
 
     def broadcast(self, message):
         """Broadcasts a message to all subscribed objects.
